@@ -701,6 +701,28 @@ func ruleBM25Deltas(r *Run, rule string, k *textKind) {
 					}
 				}
 			}
+			// … or after the branches have joined again (`if n == 0 { total = 0 }; updateAvg()`): on every way on from
+			// the live side
+			if !liveOK {
+				for _, ls := range liveSuccs {
+					for _, b := range purge.Blocks {
+						onlyEmpty := false
+						for _, es := range emptySuccs {
+							if (es == b || es.Dominates(b)) && len(es.Preds) == 1 {
+								onlyEmpty = true
+							}
+						}
+						if onlyEmpty || !(ls == b || blockReaches(ls, b)) {
+							continue
+						}
+						for _, in := range b.Instrs {
+							if recomputes(in) && reachAvoidAt(ls, 0, func(x ssa.Instruction) bool { _, isRet := x.(*ssa.Return); return isRet }, func(x ssa.Instruction) bool { return x == in }) == nil {
+								liveOK = true
+							}
+						}
+					}
+				}
+			}
 			if !liveOK && detail == "" {
 				detail = "while documents remain the average length is not recomputed"
 			}
@@ -764,6 +786,67 @@ func ruleBM25Replace(r *Run, rule string, k *textKind) {
 	})
 	site := w.Pos(fn.Pos()) + " " + name
 	if existsIf == nil {
+		// the purge helper may carry the test itself: it is then called unconditionally, before every index write, and
+		// returns at once — before any write of its own — for an id that is not indexed
+		var pc *ssa.Call
+		allInstrs(fn, func(in ssa.Instruction) {
+			call, ok := in.(*ssa.Call)
+			if !ok || pc != nil {
+				return
+			}
+			g := staticCallee(call.Common())
+			if g != nil && g.Pkg == w.SPkg && len(call.Call.Args) == 2 && call.Call.Args[0] == ssa.Value(fn.Params[0]) && c.S(call.Call.Args[1]) == "P1" &&
+				len(storesToField(w, g, "P0", "totalTokens")) > 0 {
+				pc = call
+			}
+		})
+		selfTest := false
+		if pc != nil {
+			g := staticCallee(pc.Common())
+			cg := NewCanon(w)
+			if len(g.Blocks) > 0 {
+				if iff, ok := g.Blocks[0].Instrs[len(g.Blocks[0].Instrs)-1].(*ssa.If); ok {
+					cond, neg := stripNot(iff.Cond)
+					if cs := cg.S(cond); strings.HasSuffix(cs, "[P1]#1") && strings.HasPrefix(cs, "P0.") {
+						absent := g.Blocks[0].Succs[1]
+						if neg {
+							absent = g.Blocks[0].Succs[0]
+						}
+						if len(absent.Instrs) > 0 {
+							if _, isRet := absent.Instrs[len(absent.Instrs)-1].(*ssa.Return); isRet && len(absent.Instrs) <= 2 {
+								selfTest = true
+							}
+						}
+					}
+				}
+			}
+			// nothing is written before the test
+			for _, in := range g.Blocks[0].Instrs {
+				switch in.(type) {
+				case *ssa.Store, *ssa.MapUpdate:
+					selfTest = false
+				}
+			}
+		}
+		okFirst := pc != nil
+		if pc != nil {
+			allInstrs(fn, func(in ssa.Instruction) {
+				isW := false
+				switch x := in.(type) {
+				case *ssa.MapUpdate:
+					isW = strings.HasPrefix(c.S(x.Map), "P0.")
+				case *ssa.Call:
+					isW = calleeName(x.Common()) == roaringBitmap+"Add" && strings.HasPrefix(c.S(x.Call.Args[0]), "P0.postings")
+				}
+				if isW && !domInstr(pc, in) {
+					okFirst = false
+				}
+			})
+		}
+		if pc != nil && selfTest && okFirst {
+			r.Ok(rule, "bm25:replace:test", site, "the purge helper tests itself whether the id is indexed (returning at once when it is not) and is called before every index write")
+			return
+		}
 		r.Bad(rule, "bm25:replace:test", site, "Add does not test whether the id already exists")
 		return
 	}
@@ -904,6 +987,103 @@ func ruleBM25TopK(r *Run, rule string, k *textKind) {
 	r.Check(replaceGt, rule, "bm25:topk:replace", site, "replace the root ⇔ score > root (min-heap keeps the k best)", "root replacement is not `score > root`")
 	// extraction loops fill the output from the back
 	n := 0
+	direct := map[*ssa.Call]bool{} // pops whose value is stored as it is
+	defer func() {
+		// pops whose value is converted on the way (`r := heap.Pop(h).(T); out[i] = U{Id: r.DocID, …}`): the fields of
+		// out[i] written from the popped value, same index analysis
+		for _, sc := range scans {
+			allInstrs(sc.fn, func(in ssa.Instruction) {
+				pop, ok := in.(*ssa.Call)
+				if !ok || calleeName(pop.Common()) != "container/heap.Pop" || direct[pop] {
+					return
+				}
+				var derives func(v ssa.Value, d int) bool
+				derives = func(v ssa.Value, d int) bool {
+					if d > 5 || v == nil {
+						return false
+					}
+					if v == ssa.Value(pop) {
+						return true
+					}
+					switch x := v.(type) {
+					case *ssa.TypeAssert:
+						return derives(x.X, d+1)
+					case *ssa.Field:
+						return derives(x.X, d+1)
+					case *ssa.Convert:
+						return derives(x.X, d+1)
+					case *ssa.ChangeType:
+						return derives(x.X, d+1)
+					case *ssa.UnOp:
+						if a, isA := x.X.(*ssa.FieldAddr); isA && x.Op == token.MUL {
+							if al, isAl := a.X.(*ssa.Alloc); isAl {
+								if sv := singleStore(al); sv != nil {
+									return derives(sv, d+1)
+								}
+							}
+						}
+						if al, isAl := x.X.(*ssa.Alloc); isAl && x.Op == token.MUL {
+							if sv := singleStore(al); sv != nil {
+								return derives(sv, d+1)
+							}
+							// a composite literal filled field by field
+							for _, ref := range *al.Referrers() {
+								if fa, isFA := ref.(*ssa.FieldAddr); isFA {
+									for _, rr := range *fa.Referrers() {
+										if fst, isSt := rr.(*ssa.Store); isSt && fst.Addr == ssa.Value(fa) && derives(fst.Val, d+1) {
+											return true
+										}
+									}
+								}
+							}
+						}
+					}
+					return false
+				}
+				var ia *ssa.IndexAddr
+				allInstrs(sc.fn, func(in2 ssa.Instruction) {
+					st, ok := in2.(*ssa.Store)
+					if !ok || ia != nil || !derives(st.Val, 0) {
+						return
+					}
+					switch a := st.Addr.(type) {
+					case *ssa.IndexAddr:
+						ia = a
+					case *ssa.FieldAddr:
+						if x, isIA := a.X.(*ssa.IndexAddr); isIA {
+							ia = x
+						}
+					}
+				})
+				if ia == nil {
+					return
+				}
+				phi, ok := ia.Index.(*ssa.Phi)
+				back := false
+				if ok {
+					haveInit, step := false, false
+					for _, e := range phi.Edges {
+						if b, ok := e.(*ssa.BinOp); ok {
+							if b.Op == token.SUB && b.X == ssa.Value(phi) && c.S(b.Y) == "c(1)" {
+								step = true
+								continue
+							}
+							if b.Op == token.SUB && (strings.HasPrefix(c.S(b.X), "len(") || strings.Contains(c.S(b.X), ".Len(")) && c.S(b.Y) == "c(1)" {
+								haveInit = true
+							}
+						}
+					}
+					back = haveInit && step
+				}
+				n++
+				r.Check(back, rule, fmt.Sprintf("bm25:topk:extract#%d", n), w.InstrPos(pop)+" "+name, "min-heap is drained into the output back-to-front (descending order)",
+					"heap Pop results are not written back-to-front")
+			})
+		}
+		if n < 2 {
+			r.add(rule, "bm25:topk:extract:floor", "-", fmt.Sprintf("%d heap extraction loops, floor is 2", n), Floor)
+		}
+	}()
 	for _, sc := range scans {
 		allInstrs(sc.fn, func(in ssa.Instruction) {
 			st, ok := in.(*ssa.Store)
@@ -922,6 +1102,7 @@ func ruleBM25TopK(r *Run, rule string, k *textKind) {
 			if !ok || calleeName(pop.Common()) != "container/heap.Pop" {
 				return
 			}
+			direct[pop] = true
 			n++
 			// the written index is i + off for a counter i that starts at len(X) + c0 and steps by −1; the first slot
 			// written is the last one when c0 + off = −1 (i := len−1 … out[i];  i := len … out[i−1])
@@ -955,9 +1136,6 @@ func ruleBM25TopK(r *Run, rule string, k *textKind) {
 			r.Check(back, rule, fmt.Sprintf("bm25:topk:extract#%d", n), w.InstrPos(st)+" "+name, "min-heap is drained into the output back-to-front (descending order)",
 				"heap Pop results are not written back-to-front")
 		})
-	}
-	if n < 2 {
-		r.add(rule, "bm25:topk:extract:floor", "-", fmt.Sprintf("%d heap extraction loops, floor is 2", n), Floor)
 	}
 }
 
